@@ -46,7 +46,7 @@ RULE = ("trees of 2-5 files, both tools, all parameter sets; victim entry first 
         "with the run on the pristine ecc file; non-trivial = victim not the only entry; distinct = distinct (scenario, victim, class)")
 
 KINDS = ["few", "many", "zeros", "marker", "delim1", "delim2", "delim3", "delim4", "size", "garbage", "garbage_long", "shorten", "tiny", "tailcut",
-         "tailcut", "tailcut", "empty"]
+         "tailcut", "tailcut", "empty", "size_text", "size_text", "size_text"]
 
 
 def damage_entry(rng, ent, f, s, kd):
@@ -71,6 +71,15 @@ def damage_entry(rng, ent, f, s, kd):
         ent[o:o + 5] = rb(5)
     elif kd == "size":
         ent[f["size"][0] - s] = ord("x")
+    elif kd == "size_text":
+        # the size text replaced by something `int()` and `str.isdigit()` judge differently (superscript digits, signs, blanks, underscores,
+        # other numerals), its intra-ecc by garbage so that it cannot be repaired
+        a, b = f["size"][0] - s, f["size"][1] - s
+        ea, eb = f["size_ecc"][0] - s, f["size_ecc"][1] - s
+        txt = rng.choice([b"1\xb3\xb20", b"\xb2", b"12\xb9", b"\xb9\xb9", b"4\xb2", b"\xb31", b" 12 ", b"+5", b"-3", b"1_0", b"1__0", b"_1", b"0x10", b"1e3", b"\x0b7\x0c", b"7\x00",
+                          b"\xbd", b"00012", b"1.0", b""])
+        garb = bytes(rng.choice([0x41, 0x7f, 0xfb, 0x33, rng.randrange(1, 250)]) for _ in range(eb - ea))
+        ent = bytearray(bytes(ent[:a]) + txt + bytes(ent[b:ea]) + garb + bytes(ent[eb:]))
     elif kd == "garbage":
         ent = bytearray(ent[:10] + rb(len(ent) - 10))
     elif kd == "garbage_long":
